@@ -80,3 +80,107 @@ Section Conf.
       destruct (s_pop_started _ _ _ _ _ _ HI k i Hin) as [s Hs]. eapply G; eauto.
   Qed.
 End Conf.
+
+(** ** meta parameters: whatever holds of every meta parameter the oracle hands out holds of the
+    meta parameters of every report item (an item's meta parameters are those its individual
+    was created with; the initial individual has none) *)
+Section Meta.
+  Variables V M T : Type.
+  Variable tcmp : T -> T -> comparison.
+  Variable mean : list T -> T.
+  Variable hit : T -> bool.
+  Variables max_pop min_reeval ss : nat.
+  Variable nc : N.
+  Variable budget : option N.
+  Variable init_val : V.
+  Variable os : N -> orc V M.
+
+  Notation ctl := (Ctl.ctl V M T).
+  Notation ind := (Ctl.ind V M T).
+  Notation push := (Ctl.push (T:=T) min_reeval ss init_val os).
+  Notation push_n := (Ctl.push_n (T:=T) min_reeval ss init_val os).
+  Notation init := (Ctl.init T min_reeval ss nc budget init_val os).
+  Notation step := (Ctl.step tcmp mean hit max_pop min_reeval ss budget init_val os).
+  Notation exec := (Ctl.exec tcmp mean hit max_pop min_reeval ss budget init_val os).
+
+  Variable GM : M -> Prop.
+  Hypothesis Hos : forall n, GM (o_meta (os n)).
+
+  Definition gm_ind (i : ind) : Prop := forall m, i_meta i = Some m -> GM m.
+  Record InvM (c : ctl) : Prop := {
+    m_pop : forall k i, In (k, i) (a_pop (c_algo c)) -> gm_ind i;
+    m_infl : forall s i, In (s, i) (c_infl c) -> gm_ind i;
+    m_items : forall it m, In it (c_items c) -> it_meta it = Some m -> GM m;
+  }.
+
+  Lemma InvM_push c : InvM c -> InvM (push c).
+  Proof.
+    intros [M1 M2 M3]. unfold Ctl.push.
+    destruct (Ctl.next_individual min_reeval ss init_val (c_algo c) (os (c_next_seed c))) as [i a'] eqn:En.
+    unfold Ctl.next_individual in En.
+    assert (Hfresh : Ctl.fresh init_val (c_algo c) (os (c_next_seed c)) = (i, a') ->
+                     gm_ind i /\ a_pop a' = a_pop (c_algo c)).
+    { unfold Ctl.fresh. destruct (a_init_used (c_algo c)); intros H; inversion H; subst; cbn; split; try reflexivity;
+        intros m Hm; cbn in Hm; [inversion Hm; subst; apply Hos | discriminate]. }
+    assert (G : gm_ind i /\ forall y, In y (a_pop a') -> In y (a_pop (c_algo c))).
+    { destruct (Ctl.try_reeval _ _ _ _).
+      - destruct (extract_best_ready (a_pop (c_algo c))) as [[j p']|] eqn:Ex.
+        + destruct (extract_split _ _ _ _ _ _ Ex) as (k & l1 & l2 & Ep & Ep' & _). inversion En; subst i a'. split.
+          * intros m Hm. cbn in Hm. apply (M1 k j); [rewrite Ep; apply in_or_app; right; left; reflexivity|exact Hm].
+          * cbn. intros y Hy. rewrite Ep. rewrite Ep' in Hy. apply in_app_or in Hy. apply in_or_app.
+            destruct Hy; [left|right; right]; assumption.
+        + destruct (Hfresh En) as [G1 G2]. split; [exact G1|rewrite G2; auto].
+      - destruct (Hfresh En) as [G1 G2]. split; [exact G1|rewrite G2; auto]. }
+    destruct G as [G1 G2]. constructor; cbn.
+    - intros k i0 Hin. destruct i0 as [? ? ? ?]. eapply M1. apply G2. exact Hin.
+    - intros s i0 Hin. apply in_app_or in Hin. destruct Hin as [Hin|[Hin|[]]]; [eapply M2; eauto|].
+      inversion Hin; subst. exact G1.
+    - exact M3.
+  Qed.
+
+  Lemma InvM_step c l : InvM c -> match step c l with Cont c' | Ret c' _ => InvM c' | _ => True end.
+  Proof.
+    revert c l. apply (step_inv V M T tcmp mean hit max_pop min_reeval ss budget init_val os InvM).
+    - intros c [M1 M2 M3]. constructor; cbn; assumption.
+    - intros c seed i rest e [M1 M2 M3] Ht. unfold Ctl.fail_turn.
+      assert (Hr : forall s j, In (s, j) rest -> In (s, j) (c_infl c)).
+      { intros s j Hin. apply (Permutation.Permutation_in (l := (seed, i) :: rest)); [symmetry; eapply take_perm; eauto | right; exact Hin]. }
+      destruct (c_aborted _); constructor; cbn; eauto.
+    - intros c seed i rest [M1 M2 M3] Ht.
+      assert (Hr : forall s j, In (s, j) rest -> In (s, j) (c_infl c)).
+      { intros s j Hin. apply (Permutation.Permutation_in (l := (seed, i) :: rest)); [symmetry; eapply take_perm; eauto | right; exact Hin]. }
+      constructor; cbn; eauto.
+    - intros c seed i rest o a' [M1 M2 M3] Ht Hnf Hp.
+      assert (Hr : forall s j, In (s, j) rest -> In (s, j) (c_infl c)).
+      { intros s j Hin. apply (Permutation.Permutation_in (l := (seed, i) :: rest)); [symmetry; eapply take_perm; eauto | right; exact Hin]. }
+      assert (Hi : gm_ind i).
+      { apply (M2 seed i). apply (Permutation.Permutation_in (l := (seed, i) :: rest)); [symmetry; eapply take_perm; eauto | left; reflexivity]. }
+      assert (Hpop : forall k j, In (k, j) (a_pop a') -> gm_ind j).
+      { unfold Ctl.process in Hp. destruct o as [x| |e]; cbn [res_of] in Hp.
+        - destruct (Ctl.transition mean ss (i_st i) x) as [s'|]; [|discriminate]. inversion Hp; subst a'. cbn.
+          intros k j Hin. apply firstn_incl in Hin. apply insert_in in Hin. destruct Hin as [Hin|Hin].
+          + inversion Hin; subst. intros m Hm. cbn in Hm. apply Hi. exact Hm.
+          + eapply M1; eauto.
+        - inversion Hp; subst a'. exact M1.
+        - inversion Hp; subst a'. exact M1. }
+      unfold Ctl.count_turn. destruct o as [x| |e]; constructor; cbn; eauto;
+        intros it m Hin Hm; apply in_app_or in Hin; destruct Hin as [Hin|[Hin|[]]]; eauto; subst it; cbn in Hm; apply Hi; exact Hm.
+    - intros c Hc _ _ _. apply InvM_push. exact Hc.
+  Qed.
+
+  Theorem item_metas_good (ls : list (label T)) :
+    match exec init ls with
+    | Cont c | Ret c _ => forall it m, In it (c_items c) -> it_meta it = Some m -> GM m
+    | _ => True
+    end.
+  Proof.
+    pose proof (exec_inv V M T tcmp mean hit max_pop min_reeval ss budget init_val os InvM InvM_step ls init) as H.
+    assert (H0 : InvM init).
+    { unfold Ctl.init. generalize (N.to_nat (Ctl.initial_num nc budget)). intros k.
+      assert (G : forall k c, InvM c -> InvM (push_n k c)).
+      { induction k0 as [|k0 IH]; intros c Hc; cbn [Ctl.push_n]; [exact Hc|]. apply IH. apply InvM_push. exact Hc. }
+      apply G. constructor; cbn; intros; contradiction. }
+    specialize (H H0). destruct (exec init ls) as [c|c r| |]; try exact I; apply (m_items _ H).
+  Qed.
+End Meta.
+
